@@ -1,7 +1,9 @@
-// C10 (first part only): two-lifetime replay of resume data against perturbed files, REAL code.
+// C10: resume data against perturbed files, REAL code. Two kinds of case lines:
+//   L ...   one lifetime: a generated resume object is loaded over generated on-disk files (see run_load)
+//   T ...   two lifetimes: save with the real resume_save_progress, perturb, load (below)
 // build:  ltv.build_harness("c10", ["c10.cc", "common/session.cc"])
 //
-// Case line:  <piece_len> <len> <len> ... | <post-crash perturbation per file>
+// T case line:  T <piece_len> <len> <len> ... | <post-crash perturbation per file>
 //   lifetime 1: files written complete, download_add, open, full hash_check (all pieces valid),
 //               resume_save_progress while stopped (real mtimes saved), torrent removed ("crash").
 //   perturbation token per file:  =  untouched    D  deleted    T<n> truncated to n bytes
@@ -10,8 +12,6 @@
 //               driven to completion.
 // Output:  saved=<mtime kinds> load_ranges=<membership> bits=<after check> ssl=<valid on disk by OpenSSL>
 //          sound=<1 iff every set bit is valid on disk>
-// No model side yet (C10 is unfinished): this is the replay tool for the stale-FileStat finding
-// (corpus/C10/stale_stat.case) and the skeleton of the two-lifetime correspondence.
 #include "config.h"
 
 #include <filesystem>
@@ -137,6 +137,167 @@ static std::string run_case(Session& S, const std::string& line, unsigned serial
          (err.empty() ? "" : " load_exception=" + err);
 }
 
+// ------------------------------------------------------------------------------------------
+// L case:  L <piece_len> <load_date> | <len>,<size on disk or -1>,<mtime> ... | <resume spec> | <bad pieces or ->
+//   resume spec tokens:  top=m|x   files=none|notlist|<e>,<e>,..  (e: x not a map, n map without mtime,
+//                        s mtime is a string, <int> mtime value)   bf=none|V<int>|S<hex>
+//                        unc=none|<hex>|-   ts=none|str|<int>
+//   bad pieces: their bytes on disk are overwritten (piece does not verify)
+// Output:  out=<Ignored|Loaded|Threw> bits=<after load> ranges=<after load> flags=<create,resize per file>
+//          final=<bits after hash_check(false)>  ||  ssl=<valid on disk by OpenSSL> sound=<0|1> exc=<message>
+static std::string bits_str(torrent::Download d) {
+  const torrent::Bitfield* bf = d.file_list()->bitfield();
+  if (bf->empty()) return "-";
+  std::string s;
+  for (uint32_t i = 0; i < bf->size_bits(); i++) s.push_back(bf->get(i) ? '1' : '0');
+  return s;
+}
+
+static std::string run_load(Session& S, const std::string& line, unsigned serial) {
+  std::vector<std::string> sec;
+  size_t p = 0;
+  while (true) {
+    size_t q = line.find('|', p);
+    sec.push_back(line.substr(p, q == std::string::npos ? std::string::npos : q - p));
+    if (q == std::string::npos) break;
+    p = q + 1;
+  }
+  if (sec.size() != 4) return "BADCASE";
+  auto head = split_ws(sec[0]), fl = split_ws(sec[1]), rs = split_ws(sec[2]), bad = split_ws(sec[3]);
+  if (head.size() != 3) return "BADCASE";
+  TorrentSpec spec;
+  spec.name = "l" + std::to_string(serial);
+  spec.piece_length = (uint32_t)std::stoul(head[1]);
+  uint32_t load_date = (uint32_t)std::stoul(head[2]);
+  std::vector<int64_t> dsize, dmtime;
+  for (size_t k = 0; k < fl.size(); k++) {
+    size_t a = fl[k].find(','), b = fl[k].find(',', a + 1);
+    spec.files.push_back({"f" + std::to_string(k), std::stoull(fl[k].substr(0, a))});
+    dsize.push_back(std::stoll(fl[k].substr(a + 1, b - a - 1)));
+    dmtime.push_back(std::stoll(fl[k].substr(b + 1)));
+  }
+  auto T = Session::make_metainfo(spec);
+  uint32_t np = T->piece_count(), pl = spec.piece_length;
+  std::string disk = T->content;
+  for (auto& bp : bad) {
+    if (bp == "-") continue;
+    uint64_t i = std::stoull(bp);
+    for (uint64_t g = i * pl; g < std::min<uint64_t>((i + 1) * pl, disk.size()); g++) disk[g] = char(disk[g] ^ 0x77);
+  }
+  std::string base = S.scratch() + "/L" + std::to_string(serial), root = base + "/t";
+  std::filesystem::create_directories(root);
+  std::string ssl(np, '0');
+  {
+    std::vector<uint64_t> have(fl.size(), 0);
+    std::string ondisk = disk;
+    uint64_t off = 0;
+    for (size_t k = 0; k < fl.size(); k++) {
+      uint64_t len = spec.files[k].length;
+      if (dsize[k] >= 0) {
+        std::string c = disk.substr(off, std::min<uint64_t>(len, (uint64_t)dsize[k]));
+        have[k] = c.size();
+        if ((uint64_t)dsize[k] > len) c.append((size_t)(dsize[k] - len), char(0xa5));
+        std::string path = root + "/f" + std::to_string(k);
+        std::ofstream(path, std::ios::binary | std::ios::trunc).write(c.data(), (std::streamsize)c.size());
+        struct timespec ts[2] = {{dmtime[k], 0}, {dmtime[k], 0}};
+        if (utimensat(AT_FDCWD, path.c_str(), ts, 0) != 0) return "BADCASE utimensat";
+      }
+      off += len;
+    }
+    for (uint32_t i = 0; i < np; i++) {
+      uint64_t a = (uint64_t)i * pl, b = std::min<uint64_t>(a + pl, disk.size());
+      bool ok = true;
+      uint64_t fo = 0;
+      for (size_t k = 0; k < fl.size(); k++) {
+        uint64_t fe = fo + spec.files[k].length;
+        uint64_t lo = std::max(a, fo), hi = std::min(b, fe);
+        if (lo < hi && hi - fo > have[k]) ok = false;
+        fo = fe;
+      }
+      unsigned char md[20];
+      SHA1((const unsigned char*)disk.data() + a, b - a, md);
+      if (ok && memcmp(md, T->piece_hashes[i].data(), 20) == 0) ssl[i] = '1';
+    }
+  }
+  // the resume object
+  torrent::Object resume = torrent::Object::create_map();
+  for (auto& tk : rs) {
+    size_t e = tk.find('=');
+    std::string key = tk.substr(0, e), v = tk.substr(e + 1);
+    if (key == "top") { if (v == "x") resume = torrent::Object::create_list(); }
+    else if (!resume.is_map()) continue;
+    else if (key == "files") {
+      if (v == "none") continue;
+      if (v == "notlist") { resume.insert_key("files", torrent::Object(int64_t(5))); continue; }
+      torrent::Object& l = resume.insert_key("files", torrent::Object::create_list());
+      size_t a = 0;
+      while (a <= v.size()) {
+        size_t b = v.find(',', a);
+        std::string x = v.substr(a, b == std::string::npos ? std::string::npos : b - a);
+        if (x == "x") l.as_list().push_back(torrent::Object(std::string("junk")));
+        else {
+          torrent::Object m = torrent::Object::create_map();
+          if (x == "s") m.insert_key("mtime", torrent::Object(std::string("12")));
+          else if (x != "n") m.insert_key("mtime", torrent::Object(int64_t(std::stoll(x))));
+          l.as_list().push_back(m);
+        }
+        if (b == std::string::npos) break;
+        a = b + 1;
+      }
+    } else if (key == "bf") {
+      if (v == "none") continue;
+      if (v[0] == 'V') resume.insert_key("bitfield", torrent::Object(int64_t(std::stoll(v.substr(1)))));
+      else resume.insert_key("bitfield", torrent::Object(unhex(v.substr(1))));
+    } else if (key == "unc") {
+      if (v != "none") resume.insert_key("uncertain_pieces", torrent::Object(unhex(v)));
+    } else if (key == "ts") {
+      if (v == "str") resume.insert_key("uncertain_pieces.timestamp", torrent::Object(std::string("7")));
+      else if (v != "none") resume.insert_key("uncertain_pieces.timestamp", torrent::Object(int64_t(std::stoll(v))));
+    }
+  }
+  torrent::Download d = S.add_raw("d4:info" + T->info_bytes + "e");
+  d.file_list()->set_root_dir(root);
+  const_cast<torrent::DownloadInfo*>(d.info())->set_load_date(load_date);
+  d.open(0);
+  std::string exc, outcome;
+  bool had_bits = !d.file_list()->bitfield()->empty();
+  (void)had_bits;
+  try {
+    torrent::resume_load_progress(d, resume);
+    outcome = d.file_list()->bitfield()->empty() ? "Ignored" : "Loaded";
+  } catch (torrent::internal_error&) {
+    throw;
+  } catch (torrent::base_error& e) {
+    exc = e.what();
+    outcome = "Threw";
+  }
+  std::string out = "out=" + outcome + " bits=" + bits_str(d) + " ranges=";
+  uint32_t n = d.file_list()->size_chunks();
+  for (uint32_t i = 0; i < n; i++) out.push_back(d.ptr()->hash_checker()->hashing_ranges().has(i) ? '1' : '0');
+  out += " flags=";
+  bool first = true;
+  for (auto& f : *d.file_list()) {
+    if (!first) out += ",";
+    first = false;
+    out.push_back(f->is_create_queued() ? '1' : '0');
+    out.push_back(f->is_resize_queued() ? '1' : '0');
+  }
+  d.hash_check(false);
+  S.settle([d]() { return d.is_hash_checked() || !d.info()->is_open(); }, 20000);
+  std::string fin = d.info()->is_open() ? bits_str(d) : "closed";
+  bool sound = true;
+  if (fin != "closed" && fin != "-")
+    for (size_t i = 0; i < fin.size(); i++) if (fin[i] == '1' && ssl[i] != '1') sound = false;
+  out += " final=" + fin + " || ssl=" + ssl + " sound=" + (sound ? "1" : "0") + " exc=" + exc;
+  d.close(0);
+  S.step();
+  torrent::download_remove(d);
+  S.step();
+  std::error_code ec;
+  std::filesystem::remove_all(base, ec);
+  return out;
+}
+
 int main() {
   std_setup();
   std::unique_ptr<Session> S;
@@ -145,11 +306,13 @@ int main() {
   while (std::getline(std::cin, line)) {
     try {
       if (!S) S = std::make_unique<Session>();
-      std::cout << run_case(*S, line, serial++) << "\n";
+      if (line.rfind("L ", 0) == 0) std::cout << run_load(*S, line, serial++) << "\n";
+      else if (line.rfind("T ", 0) == 0) std::cout << run_case(*S, line.substr(2), serial++) << "\n";
+      else std::cout << "BADCASE\n";
     } catch (torrent::internal_error& e) {
       std::cout << "ERR:internal || " << e.what() << "\n";
       std::cout.flush();
-      _exit(3);
+      _exit(0);
     } catch (std::exception& e) {
       std::cout << "ERR:other " << e.what() << "\n";
       std::cout.flush();
